@@ -724,6 +724,109 @@ def gen_cfg_case(rnd, kind, refused=False):
     return opts, aliases, allow, 0, 0, [], text, intent, (ref['pieces'] if ref else None)
 
 
+SAMEKEY_WORDS = ['foo', 'x-ray', 'xy', 'verbose', 'version', 'v', 'silent', 'quiet', 'q', 'x', 'alpha', 'beta', 'gamma', 'g', 'help', 'number', 'n', 'all']
+
+
+def gen_samekey_case(rnd):
+    """Two or more tokens IN A ROW that use the same key string under different lookup modes: the short option -c (alias lookup of "c") next to
+    the long option spelled with the one-letter key --c (name-or-prefix lookup of "c": an exact one-letter name, the unique prefix of a name, an
+    ambiguous prefix, or a prefix of nothing), in both orders, with and without values, with another token in between and the same mode twice
+    (controls), alias characters that are the first letter of ANOTHER option's name.  Every token must resolve exactly as it would alone: the
+    intent is computed token by token with the brute-force resolver."""
+    names = [B(w) for w in rnd.sample(SAMEKEY_WORDS, rnd.randint(3, 7))]
+    letters = sorted({nm[0] for nm in names}) + [120, 118, 113, 104, 122]
+    used, opts = set(), []
+    for nm in names:
+        a = 0
+        if rnd.random() < 0.7:
+            cand = [ch for ch in letters if ch not in used and (ch != nm[0] or rnd.random() < 0.3)]
+            if cand:
+                a = rnd.choice(cand)
+                used.add(a)
+        opts.append({'name': nm, 'alias': a, 'kind': rnd.choice([FLAG, FLAG, IMPLICIT, REQUIRED, REQUIRED]), 'neg': 1 if rnd.random() < 0.3 else 0, 'extra': []})
+    allow = 1 if rnd.random() < 0.45 else 0
+    flags = rnd.choice([0, 0, 1])
+    afv = bool(flags & 1)
+    toks, pairs, rem = [], [], []
+    err = 0
+
+    def simple_value():
+        return B(rnd.choice(['1', '7', 'x', 'a b', 'no', '-1', 'it\'s', 'v=w']))
+
+    def emit(i, key_tok, short):
+        """option i spelled with the token head key_tok ("-c" / "--c"); -> nothing; appends tokens and the intended pair"""
+        k = opts[i]['kind']
+        if k == FLAG:
+            if not short and afv and rnd.random() < 0.3:
+                v = B(rnd.choice(['1', 'no', 'yes']))
+                toks.append(key_tok + [EQ] + v); pairs.append((i, v))
+            else:
+                toks.append(key_tok); pairs.append((i, []))
+        elif k == IMPLICIT:
+            if rnd.random() < 0.5:
+                toks.append(key_tok); pairs.append((i, []))
+            else:
+                v = simple_value()
+                toks.append(key_tok + ([] if short else [EQ]) + v); pairs.append((i, v))
+        else:
+            v = simple_value()
+            if rnd.random() < 0.5:
+                toks.append(key_tok + ([] if short else [EQ]) + v)
+            else:
+                toks.append(key_tok); toks.append(v)
+            pairs.append((i, v))
+
+    def short_tok(ch):
+        i = by_alias(opts, ch)
+        if i is None:
+            if allow:
+                toks.append([DASH, ch]); rem.append([DASH, ch])
+                return 0
+            toks.append([DASH, ch])
+            return 1
+        emit(i, [DASH, ch], True)
+        return 0
+
+    def long_tok(key):
+        r = resolve(opts, key)
+        if r[0] == 'one':
+            emit(r[1], [DASH, DASH] + key, False)
+            return 0
+        if r[0] == 'many':
+            toks.append([DASH, DASH] + key + ([EQ] + B('1') if rnd.random() < 0.5 else []))
+            return 2
+        t = [DASH, DASH] + key + ([EQ] + B('1') if rnd.random() < 0.5 else [])
+        toks.append(t)
+        if allow:
+            rem.append(t)
+            return 0
+        return 1
+    achars = [o['alias'] for o in opts if o['alias']]
+    for _ in range(rnd.choice([1, 1, 2, 2, 3])):
+        q = rnd.random()
+        ch = rnd.choice(achars) if (achars and q < 0.7) else rnd.choice(letters)
+        shape = rnd.choice(['sl', 'ls', 'sl', 'ls', 'sxl', 'lxs', 'ss', 'll', 'sls', 'lsl', 'sL', 'Ls'])
+        for x in shape:
+            if x == 's':
+                err = short_tok(ch)
+            elif x == 'l':
+                err = long_tok([ch])
+            elif x in 'LS':
+                cand = [o['name'] for o in opts if o['name'][:1] == [ch] and len(o['name']) > 1]
+                err = long_tok(list(rnd.choice(cand)) if cand else [ch, 122])
+            else:
+                i = rnd.randrange(len(opts))
+                key = pick_key(rnd, opts, i)
+                if key is not None:
+                    err = long_tok(key)
+            if err:
+                break
+        if err:
+            break
+    intent = (err, [] if err else pairs, [] if err else rem)
+    return opts, [], allow, flags, 0, [], toks, intent, None
+
+
 SOUP = ['--', '-', '--alpha', '--beta=', '--alpha=3', '-fx', '-x', '--no-beta', '--no-alpha=1', '--no-', '--=', '--=v', '-', '', 'file', '--no-no-beta', '-ab', '-a', 'v', '--n', '--nu=1', '--he', '-0', '--verbose=no', '--no-verbose', '-v1']
 
 
@@ -770,11 +873,22 @@ def fixed_cases():
            (3, [{'name': B('verbose'), 'alias': 110, 'kind': REQUIRED, 'neg': 0, 'extra': []}])]
     out.append((encode(o3, [], 1, 0, 0, [], 0, [B('-#'), B('--zeta'), B('--verbose=1'), B('-n'), B('2')], (0, [(1, B('2'))], [B('-#'), B('--zeta'), B('--verbose=1')]), rf2), k))
     out.append((encode(o3, [], 0, 0, 0, [], 1, [B('-n'), B('2'), B('--verbose=1')], (1, [], []), rf2), k))
+    # seeded C14-r8: the same key string under different lookup modes within one parse (alias x = foo, unique prefix x = x-ray; alias v = verbose, name v;
+    # alias q = silent, no name starts with q)
+    o4 = [{'name': B('foo'), 'alias': 120, 'kind': FLAG, 'neg': 0, 'extra': []}, {'name': B('x-ray'), 'alias': 0, 'kind': REQUIRED, 'neg': 0, 'extra': []},
+          {'name': B('verbose'), 'alias': 118, 'kind': REQUIRED, 'neg': 0, 'extra': []}, {'name': B('v'), 'alias': 0, 'kind': REQUIRED, 'neg': 0, 'extra': []},
+          {'name': B('silent'), 'alias': 113, 'kind': FLAG, 'neg': 0, 'extra': []}]
+    k = {'kind': 'regress-same-key-other-lookup-mode'}
+    out.append((encode(o4, [], 0, 0, 0, [], 2, B('-x --x=7'), (0, [(0, []), (1, B('7'))], [])), k))
+    out.append((encode(o4, [], 0, 0, 0, [], 2, B('--x=7 -x'), (0, [(1, B('7')), (0, [])], [])), k))
+    out.append((encode(o4, [], 0, 0, 0, [], 0, [B('-v'), B('2'), B('--v=3')], (0, [(2, B('2')), (3, B('3'))], [])), k))
+    out.append((encode(o4, [], 0, 0, 0, [], 1, [B('-q'), B('--q')], (1, [], [])), k))
+    out.append((encode(o4, [], 1, 0, 0, [], 0, [B('-q'), B('--q'), B('--x'), B('1'), B('-x')], (0, [(4, []), (1, B('1')), (0, [])], [B('--q')])), k))
     return out
 
 
 KINDS = ['valid', 'valid', 'valid', 'unknown-left', 'end-marker', 'error-unknown', 'error-ambiguous', 'error-missing', 'error-extra', 'error-pos',
-         'string', 'string', 'cfg', 'cfg', 'cfg-error-format', 'cfg-error-unknown', 'soup']
+         'string', 'string', 'cfg', 'cfg', 'cfg-error-format', 'cfg-error-unknown', 'soup', 'same-key', 'same-key']
 
 
 def gen(seed, tier):
@@ -793,6 +907,12 @@ def gen(seed, tier):
         if refused and kind == 'cfg' and rnd.random() < 0.4:
             kind = 'cfg-error-unknown'
         tag = '-refused-adds' if refused else ''
+        if kind == 'same-key':
+            opts, aliases, allow, flags, pm, pn, toks, intent, pieces = gen_samekey_case(rnd)
+            mode = rnd.choice([0, 1, 2, 2])
+            payload = toks if mode != 2 else render_string(rnd, toks)
+            out.append((encode(opts, aliases, allow, flags, pm, pn, mode, payload, intent, pieces), {'kind': 'same-key-other-lookup-mode'}))
+            continue
         if kind == 'soup':
             opts, aliases, allow, flags, pm, pn, toks, intent, pieces = gen_soup(rnd, refused)
             mode = rnd.choice([0, 1, 2])
